@@ -1,6 +1,7 @@
 import Resolvo.CacheProofs
 import Resolvo.Oracles
 import Resolvo.MDet.CheckedProofs
+import Resolvo.MDet.EncSound
 /-!
 # C07 — when the preferred candidates are mutually compatible, exactly they are selected
 
@@ -108,5 +109,17 @@ example : (Abs.runOptD exU exP exHistory).map (·.trueSolvables) = some [10, 20]
 example : Abs.runOptD exU exP
     [.clause 0 .root [], .assign 0 true 1 0, .var 1 (.solvable 10), .var 2 (.solvable 11),
      .clause 1 (.requires 0 (.single 1)) [[1, 2]], .assign 2 true 2 1] = none := by decide
+
+/-- **The exact model keeps the provider's preference order in its clauses** (no checker in between; every universe meeting the
+    provider contract, problem, fuel, solver state, synchronous or asynchronous): after a solve, the positive literals of every
+    requires clause of the model — read the way its `decide` and propagation read them — stand, in clause order, for exactly
+    the sorted candidates of the requirement's version sets (`sort_candidates` order with the favored candidate first, union
+    members in the order the provider lists them). The decision rule "first undecided candidate in clause order" is
+    therefore "first undecided candidate in the provider's preference order". -/
+theorem clause_order_exact_model (U : Universe) (hU : MDet.WFU U) (P : Problem) (fuel : Nat) (s0 : MDet.S) :
+    ∀ c ∈ (MDet.solveRun U P fuel s0).2.clauses.toList, ∀ p r, c.kind = .requires p r →
+      ∃ vars : List Nat, MDet.clauseLits (MDet.solveRun U P fuel s0).2 c = (p, false) :: vars.map (fun v => (v, true)) ∧
+        vars.filterMap (Abs.oSolv (MDet.solveRun U P fuel s0).2.origins) = reqSorted U r :=
+  MDet.model_requires_order U hU P fuel s0
 
 end Resolvo.C07
